@@ -13,6 +13,7 @@ import (
 
 	"github.com/saucelabs/forwarder/header"
 	"github.com/saucelabs/forwarder/verifharness/lib"
+	"github.com/saucelabs/forwarder/verifharness/wiring"
 )
 
 type pair struct{ Name, Value string }
@@ -493,5 +494,6 @@ func main() {
 	run.Floor("rules_applied", 1000)
 	run.Floor("applied_rename", 100)
 	run.Floor("strings_accepted", 100)
+	wiring.Run(run, "C16")
 	run.Finish()
 }
